@@ -335,7 +335,13 @@ impl fmt::Display for FunctionDefinition {
         if self.has_keyword {
             f.write_str("function ")?;
         }
-        write!(f, "{}() {}", self.name, self.body)
+        // A name ending with an unquoted `$` must not be directly followed by
+        // `(`, or the result would be parsed as a command substitution.
+        let separator = match self.name.units.last() {
+            Some(WordUnit::Unquoted(TextUnit::Literal('$'))) => " ",
+            _ => "",
+        };
+        write!(f, "{}{}() {}", self.name, separator, self.body)
     }
 }
 
